@@ -4,3 +4,4 @@ import ClvmModel.Tree
 import ClvmModel.Proto.Varint
 import ClvmModel.Proto.Alloc
 import ClvmModel.Proto.Crypto
+import ClvmModel.Proto.Serde2026
